@@ -21,6 +21,12 @@
 #ifndef SANITIZED_BUILD
 # define SANITIZED_BUILD 0
 #endif
+/* Xlib is replaced by stubs (link-time): the tracker's X wrappers can be called without a display */
+GC __wrap_XCreateGC(Display *d, Drawable w, unsigned long m, XGCValues *v) { (void) d; (void) w; (void) m; (void) v; static long n; return (GC) (uintptr_t) (0x77000 + 16 * ++n); }
+int __wrap_XFreeGC(Display *d, GC gc) { (void) d; (void) gc; return 1; }
+Pixmap __wrap_XCreatePixmap(Display *d, Drawable w, unsigned int wd, unsigned int h, unsigned int depth) { (void) d; (void) w; (void) wd; (void) h; (void) depth; static Pixmap n = 0x5500; return ++n; }
+int __wrap_XFreePixmap(Display *d, Pixmap p) { (void) d; (void) p; return 1; }
+
 #define FAIL(site, kind, shape, ...) mc_fail(site, kind, shape, __VA_ARGS__)
 
 #if DEBUG >= 5
@@ -332,6 +338,42 @@ static void fa_case(uint64_t idx, void *ctx)
     mc_nontrivial();
     mc_outcome(idx);
 }
+/* ---- the X resource wrappers (Xlib itself is replaced by stubs): a GC lives in the GC table, a pixmap in the pixmap table, neither in the pointer table */
+static void xr_desc(uint64_t idx, void *ctx, char *b, size_t n) { (void) ctx; snprintf(b, n, idx ? "X_CREATE_PIXMAP / X_FREE_PIXMAP around a tracked MALLOC: which table holds what" : "X_CREATE_GC / X_FREE_GC around a tracked MALLOC: which table holds what"); }
+static void xr_case(uint64_t idx, void *ctx)
+{
+    (void) ctx; mc_set_shape("X resource"); libast_debug_level = 0; sibling_tables_prelude();
+    libast_debug_level = 5; malloc_rec.cnt = 0; g_ndead = 0; g_realloc_mode = 0;
+    unsigned long gc0 = gc_rec.cnt, px0 = pixmap_rec.cnt;
+    void *p = MALLOC(24);
+    GC gc = None; Pixmap pm = None;
+    if (idx) pm = X_CREATE_PIXMAP((Display *) NULL, (Drawable) 7, 4, 4, 8); else gc = X_CREATE_GC((Display *) NULL, (Drawable) 7, 0, (XGCValues *) NULL);
+    if (malloc_rec.cnt != 1 || gc_rec.cnt != gc0 + (idx ? 0 : 1) || pixmap_rec.cnt != px0 + (idx ? 1 : 0))
+        FAIL("spifmem", "model:record-count", "X resource", "with one tracked block and one %s alive: %lu pointer records, %lu GC records (+%lu), %lu pixmap records (+%lu)", idx ? "pixmap" : "GC", (unsigned long) malloc_rec.cnt, (unsigned long) gc_rec.cnt, (unsigned long) (gc_rec.cnt - gc0), (unsigned long) pixmap_rec.cnt, (unsigned long) (pixmap_rec.cnt - px0));
+    if (idx) X_FREE_PIXMAP((Display *) NULL, pm); else X_FREE_GC((Display *) NULL, gc);
+    FREE(p);
+    if (malloc_rec.cnt != 0 || gc_rec.cnt != gc0 || pixmap_rec.cnt != px0) FAIL("spifmem", "model:record-count", "X resource", "after freeing both: %lu pointer records, GC records %+ld, pixmap records %+ld", (unsigned long) malloc_rec.cnt, (long) gc_rec.cnt - (long) gc0, (long) pixmap_rec.cnt - (long) px0);
+    malloc_rec.cnt = 0; libast_debug_level = 0;
+    mc_nontrivial();
+    mc_outcome(idx);
+}
+/* ---- STRDUP of a string that lives in a larger tracked block: the copy's record says strlen+1 */
+static void sd_desc(uint64_t idx, void *ctx, char *b, size_t n) { (void) ctx; (void) idx; snprintf(b, n, "p = MALLOC(64) holding \"hello\"; q = STRDUP(p): the record of q"); }
+static void sd_case(uint64_t idx, void *ctx)
+{
+    (void) ctx; (void) idx; mc_set_shape("STRDUP of a tracked block"); libast_debug_level = 0; sibling_tables_prelude();
+    libast_debug_level = 5; malloc_rec.cnt = 0; g_ndead = 0; g_realloc_mode = 0;
+    char *p = (char *) MALLOC(64); strcpy(p, "hello");
+    char *q = (char *) STRDUP(p);
+    int found = 0;
+    for (unsigned long i = 0; i < malloc_rec.cnt; i++) if (malloc_rec.ptrs[i].ptr == (void *) q) { found = 1; if (malloc_rec.ptrs[i].size != 6) FAIL("spifmem_strdup", "model:record-size", "STRDUP of a tracked block", "the copy of \"hello\" is recorded with %lu bytes", (unsigned long) malloc_rec.ptrs[i].size); }
+    if (!found || malloc_rec.cnt != 2) FAIL("spifmem_strdup", "model:record-count", "STRDUP of a tracked block", "%lu records, the copy %s", (unsigned long) malloc_rec.cnt, found ? "is among them" : "is not among them");
+    if (strcmp(q, "hello")) FAIL("spifmem_strdup", "model:content", "STRDUP of a tracked block", "the copy reads \"%.10s\"", q);
+    FREE(q); FREE(p);
+    if (malloc_rec.cnt != 0) FAIL("spifmem", "model:record-count", "STRDUP of a tracked block", "%lu records after both were freed", (unsigned long) malloc_rec.cnt);
+    malloc_rec.cnt = 0; libast_debug_level = 0;
+    mc_nontrivial();
+}
 /* ---- objects of other modules in the tracked build: once they are deleted the table is empty again, whatever they went through in between */
 static void so_desc(uint64_t idx, void *ctx, char *b, size_t n) { static const char *w[3] = { "open (refused: nobody listens), delete", "open, close, open again, delete", "open, open again, close, delete" }; (void) ctx; snprintf(b, n, "client socket for a UNIX path nobody listens on: %s; records left in the table", w[idx]); }
 static void so_case(uint64_t idx, void *ctx)
@@ -372,6 +414,7 @@ int main(int argc, char **argv)
 #if TRACKED
     if (!mc_arg("only", NULL)) mc_e2_level("free_array", 3, 8, fa_case, fa_desc, NULL);
     if (!mc_arg("only", NULL)) mc_e2_level("other_modules", 1, 3, so_case, so_desc, NULL);
+    if (!mc_arg("only", NULL)) { mc_e2_level("x_resources", 1, 2, xr_case, xr_desc, NULL); mc_e2_level("strdup_of_tracked_block", 1, 1, sd_case, sd_desc, NULL); }
 #if SANITIZED_BUILD
     mc_e2_level("many_blocks", 66000, (uint64_t) NMANY * 3, many_case, many_desc, NULL);
 #else
